@@ -697,6 +697,7 @@ func (c *tcase) opLookup() {
 	} else {
 		c.label("lookup_absent")
 	}
+	c.logf("h%d.%s(%s)", hi, lookupNames[variant], hx(k))
 	c.lookup(hi, k, variant, "lookup", "")
 }
 
@@ -1052,6 +1053,7 @@ func (c *tcase) opIter() {
 			c.label("iter_with_seek")
 		}
 	}
+	c.logf("h%d.%s", hi, sp)
 	c.label("iter_" + itNames[sp.kind])
 	if hi == 0 {
 		c.label("iter_on_raw")
